@@ -4,14 +4,16 @@ EXTENDS ReplaceType
 
 MCPositions  == {"param", "result", "both", "unnamed", "qualparam", "variadic", "ptr", "slice", "map", "chan",
                  "func", "mixed", "viaalias", "viathird", "tparam", "targ", "tparamreal"}
-MCOthers     == {"none", "parambefore", "paramafter", "twinparam", "methodbefore", "methodafter", "ifaceU", "ifaceT"}
+MCOthers     == {"none", "parambefore", "paramafter", "twinparam", "methodbefore", "methodafter", "ifaceU", "ifaceT", "embedded", "twinmapped"}
 MCSrcKinds   == {"named", "alias"}
-MCTargets    == {"named", "alias", "samename", "dstpkg"}
-MCLevels     == {"root", "pkg", "iface", "entry", "entry2", "entry2x", "entry2y", "iface2x", "iface2y"}
+MCTargets    == {"named", "alias", "samename", "dstpkg", "samepkg"}
+MCLevels     == {"root", "pkg", "iface", "entry", "entry2", "entry2x", "entry2y", "iface2x", "iface2y", "over_pi", "over_re"}
 MCPlacements == {"separate", "inpkg"}
 MCTemplates  == {"testify", "matryer", "probe"}
 MCListings   == {"min", "I1", "all"}
 MCFormatters == {"goimports", "gofmt", "noop"}
 MCKinds      == {"ss", "si", "sm", "bp", "is"}
+MCExtras     == {"none", "unused"}      \* further replace-type entries for types that occur nowhere: no effect, no import
+MCTdOpts     == {"plain", "opts"}       \* other template-data of the templates (stub-impl, with-resets / unroll-variadic)
 MCAll        == {}
 =============================================================================
